@@ -318,6 +318,8 @@ FUNCS += [
     Fn("next_back", "intoiter", "st", file=VEC_RS, group="VecIntoIter", anchor="DoubleEndedIterator for IntoIter<'bump, T>", lean="intoiter_next_back",
        self_fields=II_FIELDS),
     Fn("drop", "intoiter", "st", file=VEC_RS, group="VecIntoIter", anchor="Drop for IntoIter<'bump, T>", lean="intoiter_drop", self_fields=II_FIELDS),
+    Fn("size_hint", "intoiter", "pure", file=VEC_RS, group="VecIntoIter", anchor="Iterator for IntoIter<'bump, T>", lean="intoiter_size_hint", self_fields=II_FIELDS, ret=("tuple", [NAT, opt(NAT)])),
+    Fn("size_hint", "dfilter", "pure", file=VEC_RS, group="VecFilter", anchor="Iterator for DrainFilter", lean="df_size_hint", self_fields=DF_FIELDS, ret=("tuple", [NAT, opt(NAT)])),
 ]
 for _f in FUNCS:
     if _f.lean in ("drain_next", "drain_next_back", "intoiter_next", "intoiter_next_back"):
@@ -711,6 +713,8 @@ class Tr:
             if ty == CHUNK: return t, CHUNK
             if ty == NAT and "ChunkFooter" in tt:
                 return None
+            if ty == SLOT and tt == "usize":
+                return t, NAT       # a slot index (for zero-sized elements: the counter the pointer stands for)
             return t, ty
         if k == "un" and e[1] == "!":
             p = self.pure(e[2], env)
@@ -1109,8 +1113,23 @@ class Tr:
                 tt = e[2].replace(" ", "")
                 if ty == CHUNK and tt in ("*mutu8", "*constu8", "usize"):
                     return k(f"{paren(t)}.footer", NAT, env_)
+                if ty == SLOT and tt == "usize":
+                    return k(t, NAT, env_)       # a slot index (for zero-sized elements: the counter the pointer stands for)
                 return k(t, ty, env_)
             return self.E(e[1], env, K(kc, k.trivial))
+        if kind == "tuple" and len(e[1]) == 2:
+            return self.E(e[1][0], env, K(lambda a, ta, e1: self.E(e[1][1], e1, K(lambda b, tb, e2: k(f"({a}, {b})", ("tuple", [ta, tb]), e2)))))
+        if kind == "call" and e[1] == ("path", ["offset_from"]) and len(e[2]) == 2:
+            # vec.rs `offset_from(p, origin)`: the distance in elements of two pointers into one buffer (slot indices)
+            def ko(a, ta, e1):
+                def ko2(b, tb, e2):
+                    if ta != SLOT or tb != SLOT:
+                        raise Untranslatable("offset_from of non-pointers")
+                    return f"(if {b} ≤ {a} then\n{k(f'({a} - {b})', NAT, e2)}\nelse {self.bad('offset_from of a pointer below its origin')})"
+                return self.E(e[2][1], e1, K(ko2))
+            return self.E(e[2][0], env, K(ko))
+        if kind == "call" and e[1] == ("path", ["Some"]) and len(e[2]) == 1 and self.pure(e[2][0], env) is None:
+            return self.E(e[2][0], env, K(lambda a, ta, e1: k(f"(some {a})", opt(ta), e1)))
         if kind in ("try", "return") and self.in_closure:
             raise Untranslatable("`?` / `return` inside a closure")
         if kind in ("try", "return") and env.guards():
